@@ -491,6 +491,55 @@ def ccsds_case(kind, fmt, X, Y):
     return c
 
 
+def eop_day_case(X, Y):
+    """Earth-orientation parameters attached to a date (date.eop: what every frame conversion reads) for the same instant under
+    two labels, with a database whose values depend on the day (as the IERS tables do): an uninterpreted function of the day the
+    database is asked for.  TAI-UTC is kept constant (no leap second in the neighbourhood)."""
+    def run(env, v):
+        if env.symbolic:
+            m = c03.datemod(env)
+            asked = []
+
+            def get(mjd, dbname=None):
+                day = dtmodel.rfloor(mjd.r if isinstance(mjd, (SF, SI)) else R.lift(mjd))
+                day = day.r if isinstance(day, (SF, SI)) else R.lift(day)
+                asked.append(day)
+                e = c03._Eop(SF(v["tai_utc"]), SF(uf("ut1_of_day", day)))
+                e.x = SF(uf("xp_of_day", day))
+                return e
+            m.EopDb = types.SimpleNamespace(get=get)
+            a = c03.mk_date(env, m, v["d"], v["s"], X)
+            b = a.change_scale(Y)
+            return {"ut1_utc": val(a.eop.ut1_utc) - val(b.eop.ut1_utc), "pole_x": val(a.eop.x) - val(b.eop.x)}
+        # concrete: a database registered through the public API whose values change every day
+        import beyond.dates.eop as E
+        from beyond.dates import Date
+        from beyond.config import config
+
+        class DayDb:
+            def __getitem__(self, mjd):
+                day = int(mjd)
+                return E.Eop(x=0.01 * (day % 11), y=0, dx=0, dy=0, deps=0, dpsi=0, lod=0, ut1_utc=0.001 * (day % 7) - 0.003,
+                             tai_utc=float(v["tai_utc"]))
+        E.EopDb._dbs["vf_daydb"] = DayDb()
+        config.update({"eop": {"dbname": "vf_daydb", "missing_policy": "error"}})
+        try:
+            a = Date(int(v["d"]), float(v["s"]), scale=X)
+            b = a.change_scale(Y)
+            return {"ut1_utc": (a.eop.ut1_utc - b.eop.ut1_utc) * 1e3, "pole_x": (a.eop.x - b.eop.x) * 1e2}
+        finally:
+            E.EopDb._dbs.pop("vf_daydb", None)
+            config.pop("eop", None)
+
+    def ref(env, v, out):
+        return {"ut1_utc": 0, "pole_x": 0}
+    return Case(f"eop_day/{X}-{Y}", INS, run, ref, pre=pre, timeout=60, maxpaths=100, tol=0, abs_tol=1e-9,
+                signature="Date.eop looked up by the day of the date's own scale",
+                extra_points=[{"d": 57000, "s": 86390.0}, {"d": 57000, "s": 5.0}],
+                desc=f"the Earth-orientation record attached to one instant is the same whether the date is labelled {X} or {Y} "
+                     "(database values depending on the day)")
+
+
 def all_cases(tier):
     pairs = PAIRS_QUICK if tier == "quick" else [(a, b) for a in UNI for b in UNI if a != b]
     cs = []
@@ -498,6 +547,7 @@ def all_cases(tier):
         cs += [sgp4_case(X, Y), sgp4beta_case(X, Y), tle_epoch_case(X, Y), kepler_case("kepler", X, Y), kepler_case("j2", X, Y),
                cw_case(X, Y), interp_case(X, Y), equinox_case(X, Y), ccsds_case("opm", "kvn", X, Y), ccsds_case("opm", "xml", X, Y),
                ccsds_case("oem", "kvn", X, Y), ccsds_case("oem", "xml", X, Y)]
+    cs += [eop_day_case("UTC", "TT"), eop_day_case("TAI", "UTC")]
     return cs
 
 
